@@ -4,10 +4,11 @@ import P0f.Generated.Logic.ParseSection
 import P0f.Generated.Logic.ParseTcpSig
 import P0f.Generated.Logic.ParseMtuSig
 import P0f.Generated.Logic.ParseLabel
+import P0f.Generated.Logic.ParseHttpSig
 /-
   Binding glue for the printed `_parse_file` (hand-written, part of the binding table):
   `record_cls._signature_cls.parse(value)` and `record_cls._label_cls.parse(value)` dispatch on the record class to the
-  *printed* `TCPSignature.parse` / `MTUSignature.parse` / `Label.parse` (HTTP signatures: the model's parser, not printed);
+  *printed* `TCPSignature.parse` / `MTUSignature.parse` / `HTTPSignature.parse` / `Label.parse`;
   `MTULabel.parse(v)` is `MTULabel(v)`.
 -/
 namespace P0f.Gen
@@ -17,7 +18,7 @@ def parseSigFor (k : RecKind) (v : List Char) : Option DbSig :=
   match k with
   | .mtu => (P0f.Gen.parseMtuSig v).map fun n => DbSig.mtu n.toNat
   | .tcp => (P0f.Gen.parseTcpSig v).map DbSig.tcp
-  | .http => (P0f.parseHttpSig v).map DbSig.http
+  | .http => (P0f.Gen.parseHttpSig v).map DbSig.http
 
 def parseLabelFor (k : RecKind) (v : List Char) : Option DbLabel :=
   match k with
